@@ -3,7 +3,9 @@
    entry points can panic, for every byte string, given that the code behind the dispatch (SSZ decoders, handlers,
    validators - the subject of C02, C03, C08, C09, C11, C13, C14, C15) does not; panics inside libraries and
    "the call returns" (channel / lock waits, uTP timeouts) are covered only by the recover / watchdog run of the
-   correspondence harness.  Message codes are the regenerated constants of Gen/K_wire.v. *)
+   correspondence harness.  Message codes are the regenerated constants of Gen/K_wire.v.
+   The last section ("composed with ...") instantiates the Section functions of the TALKREQ / TALKRESP entry points with
+   the decoders of C14 and the handler models of C08 / C09 / C11 / C19 / C20 and proves them UNCONDITIONALLY total. *)
 From Shisui Require Import Base.Bytes Gen.K_wire Model.Framing Model.Dispatch Proofs.Dispatch.
 
 Section C01.
@@ -85,3 +87,216 @@ Example C01_nonvacuous :
      (Some [x02; x00; x00; x00; x00; x00; x00; x00; xaa; xbb]) = Ok [xaa; xbb] /\
   handle_offered_contents 2 [x01; xaa; x00] = Ok (Some [[xaa]; []]).
 Proof. split; [|split]; vm_compute; reflexivity. Qed.
+
+(* ======================================================================================================================
+   composed with the decoders and handlers of C08 / C09 / C11 / C14 / C20 (Model/DispatchFull.v, Proofs/DispatchFull.v)
+
+   The entry points above take what lies behind the dispatch as arbitrary functions with a no-panic hypothesis.  Here these
+   functions are the real models: the body is decoded by the decoder of Model/Wire.v for that message (an error gives a nil
+   reply / an error return, as in the Go code), the decoded request is handed to the handler model of that message, over an
+   explicit node state [node_state] (local record, bucket snapshot, radius, client string, ping extensions, radius cache,
+   store view, OFFER filter view, versions + versions cache, inbound permit, next connection id) and the facts about the
+   remote peer [peer]; rand.Shuffle ([shuf]), sort.Slice ([srt]) and "ENR bytes -> node facts" ([enr_view]: rlp decoding,
+   signature check, address predicates) are arbitrary functions.  All of it is universally quantified.
+
+   STILL ABSTRACT after the composition (exercised by the recover / watchdog run, not proved):
+     - uTP: dialling / accepting a stream, reading it to EOF, timeouts; the permit and connection-id bookkeeping of the
+       socket (here: one boolean and one number of the state);
+     - goroutines and locks: `go p.processPing`, the transfer goroutines of handleFindContent / handleOffer / processOffer
+       are modelled by their effect function at most (process_ping; handle_offered_contents; the stream payload), not
+       their scheduling; "the call returns" is not a theorem;
+     - table mutation: addInboundNode / addFoundNode and RequestENR (only their outcome "sender is in the table": pr_present);
+     - the storage adapters behind storage.Get / toContentId (here: the function ns_content; their key dispatch is
+       C01_key_dispatch_total above, their contents C04);
+     - content validation of what arrives (C02 / C03 / C13) and ENR decoding / signature checks (library);
+     - library panics in general (fastssz, ztyp, go-bitfield, rlp are re-implemented in the models, not verified).
+   ====================================================================================================================== *)
+From Shisui Require Import Base.Ssz Gen.K_table Gen.K_handlers Model.Wire Model.Handlers Model.Gossip Model.Versions Model.Offer
+     Model.DispatchFull Proofs.Handlers Proofs.DispatchFull.
+
+(* TALKREQ: for every node state with the compiled number of buckets, at least one protocol version and a client string
+   below 4 GiB (ztyp's WriteOffset panics beyond), every peer, every shuffle and sort function, and EVERY byte string *)
+Theorem C01_full_talk_request_total : forall st p shuf srt,
+  length (ns_tab st) = N.to_nat K_nBuckets -> ns_versions st <> [] -> nlen (ns_client_info st) + 40 < 4294967296 ->
+  forall msg, full_talk_request st p shuf srt true msg <> Panic.
+Proof. exact (fun st p shuf srt H1 H2 H3 => full_talk_request_total st p shuf srt (conj H1 (conj H2 H3))). Qed.
+Print Assumptions C01_full_talk_request_total.
+
+(* full_talk_request is the instance of handle_talk_request (the function of C01_talk_request_total) ... *)
+Theorem C01_full_talk_request_is_instance : forall st p shuf srt g msg,
+  full_talk_request st p shuf srt g msg =
+  handle_talk_request K_msg_PING K_msg_FINDNODES K_msg_FINDCONTENT K_msg_OFFER
+    (fun b => to_reply (full_ping st p b)) (fun b => to_reply (full_findnodes st p shuf b))
+    (fun b => to_reply (full_findcontent st p srt b)) (fun b => to_reply (full_offer st p b)) g msg.
+Proof. reflexivity. Qed.
+Print Assumptions C01_full_talk_request_is_instance.
+(* ... and forgets the reply of full_talk_request_t, which returns the PONG bytes + radius cache / the NODES records /
+   the CONTENT reply / the ACCEPT bytes + listener; that one never panics either *)
+Theorem C01_full_talk_request_reply : forall st p shuf srt g msg,
+  full_talk_request st p shuf srt g msg =
+  bind (full_talk_request_t st p shuf srt g msg) (fun o => Ok (match o with Some _ => Reply | None => Empty end)).
+Proof. exact full_talk_request_erases. Qed.
+Print Assumptions C01_full_talk_request_reply.
+Theorem C01_full_talk_request_t_total : forall st p shuf srt,
+  length (ns_tab st) = N.to_nat K_nBuckets -> ns_versions st <> [] -> nlen (ns_client_info st) + 40 < 4294967296 ->
+  forall msg, full_talk_request_t st p shuf srt true msg <> Panic.
+Proof. exact (fun st p shuf srt H1 H2 H3 => full_talk_request_t_total st p shuf srt (conj H1 (conj H2 H3))). Qed.
+Print Assumptions C01_full_talk_request_t_total.
+
+(* with rand.Shuffle a permutation (C11_handler_total), a FINDNODES that decodes is always answered with records *)
+Theorem C01_full_findnodes_answered : forall st p shuf body ds,
+  is_shuffle shuf -> length (ns_tab st) = N.to_nat K_nBuckets -> dec_FindNodes body = Ok ds ->
+  exists enrs, full_findnodes st p shuf body = Ok enrs.
+Proof. exact full_findnodes_answers. Qed.
+Print Assumptions C01_full_findnodes_answered.
+
+(* TALKRESP: the four processors with the decoders of C14 and the payload processing behind them; for EVERY byte string.
+   full_process_X is the instance of process_resp / process_content above (C01_pong_nodes_accept_total,
+   C01_content_response_total); full_process_X_t is the same function with its result kept. *)
+Theorem C01_full_process_pong_total : forall st p resp,
+  full_process_pong st p resp <> Panic /\ full_process_pong_t st p resp <> Panic.
+Proof. exact (fun st p resp => conj (full_process_pong_total st p resp) (full_process_pong_t_total st p resp)). Qed.
+Print Assumptions C01_full_process_pong_total.
+Theorem C01_full_process_nodes_total : forall enr_view sender dists resp,
+  full_process_nodes enr_view sender dists resp <> Panic /\ full_process_nodes_t enr_view sender dists resp <> Panic.
+Proof.
+  exact (fun v s d resp => conj (full_process_nodes_total v s d resp) (full_process_nodes_t_total v s d resp)).
+Qed.
+Print Assumptions C01_full_process_nodes_total.
+(* guard = true: the current code (`len(resp) < 2` check) *)
+Theorem C01_full_process_content_total : forall enr_view sender resp,
+  full_process_content enr_view sender true resp <> Panic /\ full_process_content_t enr_view sender true resp <> Panic.
+Proof. exact (fun v s resp => conj (full_process_content_total v s resp) (full_process_content_t_total v s resp)). Qed.
+Print Assumptions C01_full_process_content_total.
+(* ACCEPT: parsed by the negotiated version (dec_Accept / dec_AcceptV1), then the offering side of C09.  That the accepted
+   indices stay inside the offered keys rests on the decoder: ValidateBitlist refuses a zero last byte (go-bitfield's
+   BitIndices would otherwise exceed Len) and the code compares the key count first. *)
+Theorem C01_full_process_offer_total : forall st p req resp, ns_versions st <> [] ->
+  full_process_offer st p req resp <> Panic /\ full_process_offer_t st p req resp <> Panic.
+Proof. exact (fun st p req resp H => conj (full_process_offer_total st p req resp H) (full_process_offer_t_total st p req resp H)). Qed.
+Print Assumptions C01_full_process_offer_total.
+(* the uTP stream body that follows a connection-id CONTENT reply (decodeUtpContent with the negotiated version, C15 / C19) *)
+Theorem C01_full_content_stream_total : forall st p data, ns_versions st <> [] -> full_content_stream st p data <> Panic.
+Proof. exact full_content_stream_total. Qed.
+Print Assumptions C01_full_content_stream_total.
+
+(* the processor MODELS of C11 / C08 / C09 carry their own copy of the dispatch (and C08 / C09 of the small decoders).  Fed
+   with what the decoders of C14 return they agree with the composed processors on every response, up to the error class;
+   the radius cache a PONG leaves behind is the one of C20's process_pong *)
+Theorem C01_full_process_nodes_is_C11 : forall enr_view sender dists resp,
+  same_class (full_process_nodes_t enr_view sender dists resp)
+             (Handlers.process_nodes resp (decoded_nodes enr_view resp) sender dists).
+Proof. exact full_process_nodes_agrees. Qed.
+Print Assumptions C01_full_process_nodes_is_C11.
+Theorem C01_full_process_content_is_C08 : forall enr_view sender resp,
+  same_class (full_process_content_t enr_view sender (K_processContent_short_panics =? 0) resp)
+             (Handlers.process_content resp (decoded_enrs enr_view resp) sender).
+Proof. exact full_process_content_agrees. Qed.
+Print Assumptions C01_full_process_content_is_C08.
+Theorem C01_full_process_offer_is_C09 : forall st p req resp,
+  same_class (full_process_offer_t st p req resp) (Offer.process_offer (peer_version st p) (offer_lookup st) resp req).
+Proof. exact full_process_offer_agrees. Qed.
+Print Assumptions C01_full_process_offer_is_C09.
+Theorem C01_C09_process_offer_total : forall st p req resp, ns_versions st <> [] ->
+  Offer.process_offer (peer_version st p) (offer_lookup st) resp req <> Panic.
+Proof. exact process_offer_total. Qed.
+Print Assumptions C01_C09_process_offer_total.
+Theorem C01_full_process_pong_cache_is_C20 : forall st p body pong c',
+  pong_body st p body = Ok (pong, c') ->
+  c' = Gossip.process_pong (ns_supported st) (ns_cache st) (payload_event true p pong).
+Proof. exact pong_body_cache. Qed.
+Print Assumptions C01_full_process_pong_cache_is_C20.
+
+(* totality of the handler models that had no such theorem: handleOffer for any version outcome, getOrStoreHighestVersion *)
+Theorem C01_handle_offer_total : forall ver nv pf cid keys, ver <> Panic -> handle_offer ver nv pf cid keys <> Panic.
+Proof. exact (handle_offer_gen_total true). Qed.
+Print Assumptions C01_handle_offer_total.
+Theorem C01_get_or_store_total : forall own c node e, own <> [] -> fst (get_or_store own c node e) <> Panic.
+Proof. exact get_or_store_no_panic. Qed.
+Print Assumptions C01_get_or_store_total.
+(* without that side condition the model does panic: currentVersions[0] on an empty list, peer without a "pv" entry *)
+Theorem C01_get_or_store_empty_versions_refuted : fst (get_or_store [] empty_cache 0 PvMissing) = Panic.
+Proof. reflexivity. Qed.
+Print Assumptions C01_get_or_store_empty_versions_refuted.
+
+(* the code as found, composed: the same two witnesses, whatever the state *)
+Theorem C01_full_empty_talkreq_refuted : forall st p shuf srt, full_talk_request st p shuf srt false [] = Panic.
+Proof. exact full_talk_request_empty_refuted. Qed.
+Print Assumptions C01_full_empty_talkreq_refuted.
+Theorem C01_full_one_byte_content_refuted : forall enr_view sender, full_process_content enr_view sender false [x05] = Panic.
+Proof. exact full_process_content_one_byte_refuted. Qed.
+Print Assumptions C01_full_one_byte_content_refuted.
+
+(* the PONG error payloads of the model are the byte strings of pingext.errPayloadMap *)
+Theorem C01_err_payloads : err_payload 0 = [x00; x00; x06; x00; x00; x00; x65; x78; x74; x65; x6e; x73; x69; x6f; x6e; x20; x69;
+                                            x73; x20; x6e; x6f; x74; x20; x73; x75; x70; x70; x6f; x72; x74; x65; x64] /\
+  err_payload 1 = [x01; x00; x06; x00; x00; x00; x72; x65; x71; x75; x65; x73; x74; x65; x64; x20; x64; x61; x74; x61; x20; x6e;
+                   x6f; x74; x20; x66; x6f; x75; x6e; x64] /\
+  err_payload 2 = [x02; x00; x06; x00; x00; x00; x66; x61; x69; x6c; x65; x64; x20; x74; x6f; x20; x64; x65; x63; x6f; x64; x65;
+                   x20; x70; x61; x79; x6c; x6f; x61; x64] /\
+  err_payload 3 = [x03; x00; x06; x00; x00; x00; x73; x79; x73; x74; x65; x6d; x20; x65; x72; x72; x6f; x72].
+Proof. exact err_payload_bytes. Qed.
+Print Assumptions C01_err_payloads.
+
+(* non-vacuity: concrete messages go through decoder AND handler.  A history-network node (id 5, loopback address) with three
+   entries in its last bucket (a public, l loopback, dead not yet validated), content under key 00aa, the OFFER view of
+   C09's example; the peer (loopback, in the table, advertises versions [0; 1]). *)
+Definition ex_a := mkRec 1 (2^255 + 5) 1 30303 300 true.
+Definition ex_l := mkRec 2 (2^255 + 9) 25 30303 120 true.
+Definition ex_dead := mkRec 3 (2^255 + 17) 1 30303 120 true.
+Definition ex_self := mkRec 0 5 25 9009 110 true.
+Definition ex_state : node_state := {|
+  ns_self := ex_self; ns_seq := 7;
+  ns_tab := repeat [] 16 ++ [[(ex_a, true); (ex_l, true); (ex_dead, false)]]; ns_init_done := true;
+  ns_radius := 2^256 - 1; ns_client_info := [x73; x68]; ns_supported := K_ext_history; ns_cache := [];
+  ns_content := fun k => match k with [] => None | [x00; xaa] => Some (St_Found [x01; x02; x03]) | _ => Some St_NotFound end;
+  ns_offer_view := {| nv_nilid := fun _ => false; nv_inrange := fun k => negb (bytes_eqb k [x03]);
+                      nv_stored := fun k => bytes_eqb k [x02]; nv_inflight := fun _ => false; nv_queue_room := true |};
+  ns_versions := K_Versions; ns_vcache := empty_cache; ns_permit_free := true; ns_next_cid := 770 |}.
+Definition ex_peer : peer :=
+  {| pr_rec := mkRec 9 (2^255 + 33) 25 30303 120 true; pr_addr := 25; pr_pv := PvList [0; 1]; pr_present := true |}.
+Definition ex_talk := full_talk_request_t ex_state ex_peer (fun _ g => g) (fun _ => isort_by 1000) true.
+Definition ex_view (b : bytes) : nrec := match b with [x01] => ex_a | [x02] => ex_l | _ => ex_dead end.
+Definition ex_msg (code : N) (body : res bytes) : bytes := n2b code :: match body with Ok b => b | _ => [] end.
+
+Example C01_full_nonvacuous :
+  length (ns_tab ex_state) = N.to_nat K_nBuckets /\ ns_versions ex_state <> [] /\
+  (* FINDNODES for distances [0; 256]: own record, then the live entries of the last bucket (loopback asker: all of them) *)
+  ex_talk [x02; x04; x00; x00; x00; x00; x00; x00; x01] = Ok (Some (T_Nodes [ex_self; ex_a; ex_l])) /\
+  full_talk_request ex_state ex_peer (fun _ g => g) (fun _ => isort_by 1000) true
+    [x02; x04; x00; x00; x00; x00; x00; x00; x01] = Ok Reply /\
+  (* truncated FINDNODES, FINDCONTENT without a key, unknown code: the decoder refuses, nil reply *)
+  ex_talk [x02; x04; x00; x00] = Ok None /\ ex_talk [x04; x04; x00; x00; x00] = Ok None /\ ex_talk [x09; x00] = Ok None /\
+  (* FINDCONTENT for the held key 00aa: the stored bytes inline; for another key: the nearest records, never the asker *)
+  ex_talk [x04; x04; x00; x00; x00; x00; xaa] = Ok (Some (T_Content (FC_Raw [x01; x02; x03]))) /\
+  ex_talk [x04; x04; x00; x00; x00; x00; xab] = Ok (Some (T_Content (FC_Enrs [ex_dead; ex_l; ex_a]))) /\
+  (* PING with a HistoryRadius payload: PONG seq 7 with our radius, and the sender's radius is cached *)
+  (exists reply, ex_talk (ex_msg 0 (enc_Ping (3, 2, repeat xff 32 ++ [x05; x00]))) =
+                   Ok (Some (T_Pong reply [(2^255 + 33, RGood (2^256 - 1))])) /\
+                 dec_Pong (tl reply) = Ok (7, 2, repeat xff 32 ++ [x00; x00])) /\
+  (* PING with a BasicRadius payload, which the history network does not support: PONG Error / "extension is not supported" *)
+  (exists reply, ex_talk (ex_msg 0 (enc_Ping (3, 1, repeat xff 32))) = Ok (Some (T_Pong reply [])) /\
+                 dec_Pong (tl reply) = Ok (7, 65535, err_payload 0)) /\
+  (* OFFER of four keys, negotiated version 1: codes accepted / stored / not in radius / accepted, listener on 770 ... *)
+  ex_talk (ex_msg 6 (enc_Offer [[x01]; [x02]; [x03]; [x04]])) =
+    Ok (Some (T_Accept {| or_reply := [x07; x03; x02; x06; x00; x00; x00; x00; x02; x03; x00];
+                          or_listen := Some (770, [[x01]; [x04]]); or_permit_taken := true |})) /\
+  (* ... and the offering side on that very reply: the stream payload for connection 770 holds items 0 and 3 *)
+  full_process_offer_t ex_state ex_peer (ReqTransient [([x01], [xaa]); ([x02], [xbb]); ([x03], [xcc]); ([x04], [xdd; xdd])])
+    [x07; x03; x02; x06; x00; x00; x00; x00; x02; x03; x00] = Ok ([x00; x02; x03; x00], Some (770, [x01; xaa; x02; xdd; xdd])) /\
+  (* NODES with three records, the third a repeat: two accepted at distance 256 from the asker *)
+  full_process_nodes_t ex_view ex_self (Some [256]) (ex_msg 3 (enc_Nodes (1, [[x01]; [x02]; [x01]]))) = Ok [ex_a; ex_l] /\
+  (* CONTENT: raw bytes, a connection id, the one-byte response (an error with the guard) *)
+  full_process_content_t ex_view ex_self true [x05; x01; xaa; xbb] = Ok (PC_Raw [xaa; xbb]) /\
+  full_process_content_t ex_view ex_self true [x05; x00; xaa; xbb] = Ok (PC_ConnId [xaa; xbb]) /\
+  full_process_content_t ex_view ex_self true [x05] = Err E_BAD_CODE /\
+  (* PONG with a HistoryRadius payload: the sender's radius is cached *)
+  (exists pong, full_process_pong_t ex_state ex_peer (ex_msg 1 (enc_Pong (9, 2, repeat x11 32 ++ [x00; x00]))) =
+                  Ok (pong, [(2^255 + 33, RGood (le_dec (repeat x11 32)))])).
+Proof.
+  split; [reflexivity|]. split; [discriminate|].
+  repeat match goal with
+  | |- _ /\ _ => split
+  | |- exists _, _ => eexists
+  end; vm_compute; reflexivity.
+Qed.
